@@ -174,6 +174,15 @@ impl Sim {
         }
         // Configuration flavours (through the real instruction).
         for m in 0..w.markets.len() {
+            // generous caps (the repository's own integration setup does the same)
+            for (k, v) in [
+                ("max_pool_amount_for_long_token", 1_000_000_000_000_000_000u128),
+                ("max_pool_amount_for_short_token", 1_000_000_000_000_000_000u128),
+                ("max_pool_value_for_deposit_for_long_token", 1_000_000_000 * UNIT),
+                ("max_pool_value_for_deposit_for_short_token", 1_000_000_000 * UNIT),
+            ] {
+                w.set_market_config(m, k, v).expect("config");
+            }
             if rng.chance(1, 2) {
                 // non-trivial swap / order fees
                 let f = rng.range_u128(0, 5) * UNIT / 1000; // 0..0.5%
@@ -217,6 +226,19 @@ impl Sim {
         sim.prices[eth] = 3_000 * E18;
         sim.spreads_bps = vec![2, 10, 0, 5];
         sim.refresh_prices();
+        // Base liquidity from a dedicated LP so that positions and swaps can execute from the start.
+        let lp = sim.w.add_user("base-lp");
+        sim.users.retain(|u| *u != lp);
+        sim.w.users.retain(|u| *u != lp);
+        token::fund_ata(&mut sim.w.svm, &lp, &sol_mint, 10_000_000 * 1_000_000_000);
+        token::fund_ata(&mut sim.w.svm, &lp, &usdc_mint, 1_000_000_000 * 1_000_000);
+        for m in 0..sim.w.markets.len() {
+            let (l, s) = if m == 2 { (10_000 * 1_000_000_000u64, 10_000 * 1_000_000_000u64) } else { (20_000 * 1_000_000_000u64, 3_000_000 * 1_000_000u64) };
+            if let Ok(d) = sim.w.create_deposit(lp, m, l, s, None, None, &[], &[], 0) {
+                let _ = sim.w.execute_deposit(d, false);
+                let _ = sim.w.close_deposit(lp, d);
+            }
+        }
         sim
     }
 
@@ -245,7 +267,7 @@ impl Sim {
                     for coll_long in [true, false] {
                         let p = self.w.position_pda(u, m, is_long, coll_long);
                         if let Some(pos) = load::<Position>(&self.w.svm, &p) {
-                            if out.iter().all(|(k, _)| *k != p) {
+                            if pos.state.size_in_usd != 0 && out.iter().all(|(k, _)| *k != p) {
                                 out.push((p, pos));
                             }
                         }
@@ -263,32 +285,27 @@ impl Sim {
     /// A random valid-looking swap path (market indices) from `from` mint to `to` mint over the
     /// SOL/USDC markets (0, 1, 3); may also return deliberately broken paths.
     fn gen_path(&mut self, from: Pubkey, to: Pubkey, max_len: usize) -> Vec<usize> {
-        let swap_markets = [0usize, 1, 3];
-        let sol = self.w.tokens[self.tok.sol].mint;
-        let usdc = self.w.tokens[self.tok.usdc].mint;
-        let mut path = vec![];
-        let mut cur = from;
-        let len = self.rng.range(0, max_len as u64) as usize;
-        for i in 0..len {
-            let m = *self.rng.pick(&swap_markets);
-            path.push(m);
-            cur = if cur == sol { usdc } else { sol };
-            if i + 1 == len && cur != to {
-                // one more hop to land on the target
-                let m2 = *self.rng.pick(&swap_markets);
-                path.push(m2);
-                cur = if cur == sol { usdc } else { sol };
-            }
+        // All swap markets here are SOL/USDC, so every hop flips the token: a path from `from` to
+        // `to` needs an even number of hops if they are equal and an odd number otherwise, over
+        // distinct markets.
+        let mut swap_markets = vec![0usize, 1, 3];
+        self.rng.shuffle(&mut swap_markets);
+        let parity = if from == to { 0 } else { 1 };
+        let mut len = self.rng.range(0, max_len.min(3) as u64) as usize;
+        if len % 2 != parity {
+            len = if len == 0 { 1 } else { len - 1 };
         }
-        let _ = cur;
+        let mut path: Vec<usize> = swap_markets[..len.min(3)].to_vec();
         if self.rng.chance(1, 12) {
-            // fault: duplicate a market / add the pure market (no-op step)
-            if let Some(&first) = path.first() {
-                if self.rng.bool() {
-                    path.push(first);
-                } else {
-                    path.push(2);
+            // fault: duplicate a market / add the pure market (no-op step) / wrong parity
+            match self.rng.below(3) {
+                0 => {
+                    if let Some(&first) = path.first() {
+                        path.push(first);
+                    }
                 }
+                1 => path.push(2),
+                _ => path.push(swap_markets[0]),
             }
         }
         path
@@ -361,8 +378,16 @@ impl Sim {
                 Op::CreateDeposit { user, market, long, short, long_path, short_path }
             }
             4 => {
-                let market = self.rng.below(4) as usize;
+                let mut market = self.rng.below(4) as usize;
                 let user = self.rng.below(3) as usize;
+                for k in 0..4 {
+                    let cand = (market + k) % 4;
+                    let mtk = self.w.markets[cand].market_token;
+                    if token::token_amount(&self.w.svm, &token::ata(&self.users[user], &mtk)).unwrap_or(0) > 0 && !self.rng.chance(1, 10) {
+                        market = cand;
+                        break;
+                    }
+                }
                 let mt = self.w.markets[market].market_token;
                 let bal = token::token_amount(&self.w.svm, &token::ata(&self.users[user], &mt)).unwrap_or(0);
                 let amount = match self.rng.below(4) {
@@ -377,8 +402,11 @@ impl Sim {
             }
             5 => {
                 let user = self.rng.below(3) as usize;
-                let from = *self.rng.pick(&[0usize, 1, 3, 2]);
-                let to = *self.rng.pick(&[0usize, 1, 3, 2]);
+                let from = *self.rng.pick(&[0usize, 1, 3, 0, 1, 3, 2]);
+                let mut to = *self.rng.pick(&[0usize, 1, 3, 0, 1, 3, 2]);
+                if to == from && !self.rng.chance(1, 10) {
+                    to = [0usize, 1, 3][(from + 1) % 3];
+                }
                 let mt = self.w.markets[from].market_token;
                 let bal = token::token_amount(&self.w.svm, &token::ata(&self.users[user], &mt)).unwrap_or(0);
                 Op::CreateShift { user, from, to, amount: self.rng.range(0, bal.max(1)) }
@@ -453,8 +481,10 @@ impl Sim {
                                     req.initial_collateral_delta_amount = self.rng.range(0, (p.state.collateral_amount as u64).max(1));
                                 }
                             }
-                        } else {
+                        } else if self.rng.chance(1, 8) {
                             req.size_delta_value = self.rng.range(1, 1000) as u128 * UNIT;
+                        } else {
+                            return Op::RefreshPrices;
                         }
                         let index = self.w.markets[req.market].index;
                         let unit = self.index_unit_price(index);
